@@ -22,9 +22,11 @@ def check(prog, run):
     run.rule("R-map", "ac2mp_poly: lambda_c = log(lambda_d)/dt, fn = |lambda_c|/(2 pi), xi = -Re(lambda_c)/|lambda_c|", 3)
     run.rule("R-blank", "Re(lambda) > 0 blanks eigenvalue and eigenvector column alike (same predicate, same array), before fn/xi/phi; inf frequency -> NaN", 5)
     run.rule("O-units", "pLSCF: exp argument dimensionless, alpha ~ S^0, beta ~ S^1 for both basis-function signs; poles ~ 1/s", 8)
+    run.rule("R-gram", "pLSCF: every inverse / linear solve inside the order loop is taken of a matrix built for THAT order (no block of the inverse of a larger Gramian)", 3)
     run.rule("R-pad", "Fns, Xis, Lambds padded by zip_longest(fillvalue=nan), Phi by a NaN-filled array: rectangular tables", 4)
     mapform.map_obligations(prog, run, "R-map", POLY, {"methodSy": "per"}, "methodSy=per", (0, 1, 3))
     blank(prog, run)
+    gram(prog, run)
     units(prog, run)
     pad(prog, run)
 
@@ -82,6 +84,55 @@ def blank(prog, run):
             if "inf" in astq.src(c) and isinstance(n.value, ast.Attribute) and n.value.attr.lower() == "nan":
                 inf = True
     run.ob("R-blank", pp.qual, "infinite frequencies become NaN", inf, "`fn[fn == inf] = nan`" if inf else "no replacement of infinite frequencies", witness="missing", file=fp, node=pp.node)
+
+
+INVS = ("numpy.linalg.inv", "numpy.linalg.pinv", "scipy.linalg.inv", "scipy.linalg.pinv")
+SOLVES = ("numpy.linalg.solve", "scipy.linalg.solve", "numpy.linalg.lstsq", "scipy.linalg.lstsq")
+
+
+def gram(prog, run):
+    fi = prog.func("functions.plscf.pLSCF")
+    f = rel(prog.mods[fi.mod].path)
+    pm = astq.parent_map(fi.node)
+    from .. import symidx
+    loops = [n for n in ast.walk(fi.node) if isinstance(n, ast.For) and isinstance(n.target, ast.Name) and symidx.is_range(prog, fi, n.iter) is not None
+             and "ordmax" in astq.src(n.iter)]
+    if not loops:
+        run.ob("R-gram", fi.qual, "order loop", None, "loop over model orders not found", file=f)
+        return
+    loop = loops[0]
+    nvar = loop.target.id
+    n_sites = 0
+    # (a) a sliced inverse is not the inverse of the sliced matrix
+    for sub in ast.walk(fi.node):
+        if isinstance(sub, ast.Subscript) and any(isinstance(x, ast.Slice) and not astq.is_full_slice(x) for x in astq.index_elts(sub)):
+            x = astq.expr_at(fi, sub, sub.value)
+            if isinstance(x, ast.Call) and astq.callee_name(prog, fi, x) in INVS:
+                n_sites += 1
+                run.ob("R-gram", fi.qual, "no block of an inverse used as the inverse of a block", False,
+                       f"`{astq.src(sub, 50)}` slices `{astq.src(x, 50)}`: the leading block of inv(R_ordmax) is not inv(R_n)", witness=astq.src(sub, 50), file=f, node=sub)
+    # (b) every inverse / solve in (or feeding) the order loop depends on the order variable
+    for c in ast.walk(fi.node):
+        if isinstance(c, ast.Call) and astq.callee_name(prog, fi, c) in INVS + SOLVES and c.args:
+            inside = any(x is c for x in ast.walk(loop))
+            x = astq.expr_at(fi, c, c.args[0])
+            dep = any(isinstance(z, ast.Name) and z.id == nvar for z in ast.walk(x))
+            n_sites += 1
+            if inside:
+                run.ob("R-gram", fi.qual, "matrix inverted in the order loop is built for that order", dep,
+                       f"`{astq.src(c, 60)}`: argument " + ("depends on" if dep else "does NOT depend on") + f" the order variable `{nvar}`", witness=astq.src(c.args[0], 50), file=f, node=c, config=f"line-order#{n_sites}")
+            else:
+                used_in_loop = False
+                tgt = pm.get(c)
+                while tgt is not None and not isinstance(tgt, ast.Assign):
+                    tgt = pm.get(tgt)
+                if isinstance(tgt, ast.Assign) and isinstance(tgt.targets[0], ast.Name):
+                    nm = tgt.targets[0].id
+                    used_in_loop = any(isinstance(z, ast.Name) and z.id == nm for z in ast.walk(loop))
+                run.ob("R-gram", fi.qual, "no order-independent inverse is shared between orders", not used_in_loop,
+                       f"`{astq.src(c, 60)}` is computed once outside the order loop" + (" and used inside it" if used_in_loop else ""), witness=astq.src(c, 50), file=f, node=c)
+    if n_sites == 0:
+        run.ob("R-gram", fi.qual, "inverses / solves", None, "no inverse or linear solve found in pLSCF", file=f)
 
 
 def units(prog, run):
